@@ -30,20 +30,23 @@ def same_node(new, old, r, fields=('pos_', 'momentum_')):
 
 
 # ---- free-slot queues: what the primitives rely on ---------------------------------------------------------------------------------------
-def free_nodes_wf(view, c):
-    q = fnq(view, c); nl = nodes(view, c)
-    return QForall(lambda a: z3.Implies(z3.And(a >= 0, a < view.len(q)), z3.And(view.at(q, a, 'int') >= 0, view.at(q, a, 'int') < view.len(nl))), 1, 'free node ids are slots of the node list')
+def free_wf(view, q, lst, used_key, what):
+    """[(name, clause)]: the ids waiting in a free-slot queue are slots of the list, pairwise different, and those slots are unused"""
+    at = lambda a: view.at(q, a, 'int')
+    ln = view.len(q)
+    return [('free-%s-ids-are-slots' % what, QForall(lambda a: z3.Implies(z3.And(a >= 0, a < ln), z3.And(at(a) >= 0, at(a) < view.len(lst))), 1, 'free %s ids are slots' % what)),
+            ('free-%s-ids-are-unused-slots' % what, QForall(lambda a: z3.Implies(z3.And(a >= 0, a < ln), z3.Not(view.f(view.elem(lst, at(a)), used_key))), 1, 'free %s slots are unused' % what)),
+            ('free-%s-ids-differ' % what, QForall(lambda a, b: z3.Implies(z3.And(a >= 0, a < b, b < ln), at(a) != at(b)), 2, 'free %s ids differ' % what))]
 
 
-def free_faces_wf(view, c):
-    q = ffq(view, c); fl = faces(view, c)
-    return QForall(lambda a: z3.Implies(z3.And(a >= 0, a < view.len(q)), z3.And(view.at(q, a, 'int') >= 0, view.at(q, a, 'int') < view.len(fl))), 1, 'free face ids are slots of the face list')
+def free_nodes_wf(view, c): return free_wf(view, fnq(view, c), nodes(view, c), 'node.is_used_', 'node')
+def free_faces_wf(view, c): return free_wf(view, ffq(view, c), faces(view, c), 'face.is_used_', 'face')
 
 
 # ---- cell::add_node ------------------------------------------------------------------------------------------------------------------------
 def add_node_pre(C):
     o = C.old
-    return [('free-node-ids-are-slots', free_nodes_wf(o, C.this)), ('list-sizes', z3.And(o.len(nodes(o, C.this)) >= 0, o.len(nodes(o, C.this)) < 2 ** 31))]
+    return free_nodes_wf(o, C.this) + [('list-sizes', z3.And(o.len(nodes(o, C.this)) >= 0, o.len(nodes(o, C.this)) < 2 ** 31))]
 
 
 def add_node_post(C, prop_fields=('pos_', 'momentum_')):
@@ -64,7 +67,7 @@ def add_node_post(C, prop_fields=('pos_', 'momentum_')):
            ('storage-moves-only-when-appending', z3.Implies(reuse, n.f(nl, 'vec.epoch') == o.f(nl, 'vec.epoch'))),
            ('other-vectors-untouched', QForall(lambda r: z3.Implies(z3.And(r != nl, r != q), z3.And(n.f(r, 'vec.len') == o.f(r, 'vec.len'), n.f(r, 'vec.epoch') == o.f(r, 'vec.epoch'),
                                                                                                   z3.Select(n.arr('vec.data.int'), r) == z3.Select(o.arr('vec.data.int'), r))), 1, 'other vectors')),
-           ('free-node-ids-stay-slots', free_nodes_wf(n, c))]
+           ] + [(nm + '-afterwards', g) for (nm, g) in free_nodes_wf(n, c)]
     return out
 
 
@@ -146,8 +149,7 @@ def delete_face_pre(C):
     fl = faces(o, c); f = o.elem(fl, fid); s = eset(o, c)
     keys, n = face_keys(o, C.e, f)
     out = [('face-is-a-used-slot', z3.And(fid >= 0, fid < o.len(fl), o.f(f, 'face.is_used_'), o.f(f, 'face.local_face_id_') == fid)),
-           ('face-nodes-differ', z3.And(n[0] != n[1], n[1] != n[2], n[0] != n[2])),
-           ('free-face-ids-are-slots', free_faces_wf(o, c))]
+           ('face-nodes-differ', z3.And(n[0] != n[1], n[1] != n[2], n[0] != n[2]))] + free_faces_wf(o, c)
     for j, k in enumerate(keys):
         # the three edges of the face exist and either list the face or have two faces (the accessors f1()/f2() are called in this order)
         out.append(('edge-%d-of-the-face-exists-and-can-be-asked-for-its-faces' % (j + 1),
@@ -177,9 +179,8 @@ def delete_face_post(C):
     out.append(('other-faces-untouched', QForall(lambda j: z3.Implies(z3.And(j >= 0, j < o.len(fl), j != fid),
                                                                       z3.And(n.f(o.elem(fl, j), 'face.is_used_') == o.f(o.elem(fl, j), 'face.is_used_'),
                                                                              *[n.f(o.elem(fl, j), 'face.n%d_id_' % i) == o.f(o.elem(fl, j), 'face.n%d_id_' % i) for i in (1, 2, 3)])), 1, 'other faces')))
-    out.append(('free-face-ids-stay-slots', free_faces_wf(n, c)))
-    out.append(('stored-edges-still-match-their-keys', z3.BoolVal(True) if True else None))
-    out[-1] = ('stored-edges-still-match-their-keys', edges_wf_after(C, o, n, c))
+    out += [(nm + '-afterwards', g) for (nm, g) in free_faces_wf(n, c)]
+    out.append(('stored-edges-still-match-their-keys', edges_wf_after(C, o, n, c)))
     return out
 
 
@@ -218,9 +219,9 @@ def add_face_pre(C):
     n = [o.f(f, 'face.n%d_id_' % j) for j in (1, 2, 3)]
     nl = nodes(o, c)
     return [('node-ids-are-slots-and-differ', z3.And(*[z3.And(x >= 0, x < o.len(nl)) for x in n], n[0] != n[1], n[1] != n[2], n[0] != n[2])),
-            ('free-face-ids-are-slots', free_faces_wf(o, c)), ('face-list-size', z3.And(o.len(faces(o, c)) >= 0, o.len(faces(o, c)) < 2 ** 31)),
+            ('face-list-size', z3.And(o.len(faces(o, c)) >= 0, o.len(faces(o, c)) < 2 ** 31)),
             ('the-face-to-add-is-not-a-slot-of-this-cell', C.e.root_of(f) != C.e.root_of(c.ref)),
-            ('stored-edges-match-their-keys', edges_wf(o, c))]
+            ('stored-edges-match-their-keys', edges_wf(o, c))] + free_faces_wf(o, c)
 
 
 def add_face_post(C):
@@ -255,7 +256,7 @@ def add_face_post(C):
     out.append(('other-faces-untouched', QForall(lambda j: z3.Implies(z3.And(j >= 0, j < o.len(fl), j != rid),
                                                                       z3.And(n.f(o.elem(fl, j), 'face.is_used_') == o.f(o.elem(fl, j), 'face.is_used_'), n.f(o.elem(fl, j), 'face.type_id_') == o.f(o.elem(fl, j), 'face.type_id_'),
                                                                              *[n.f(o.elem(fl, j), 'face.n%d_id_' % i) == o.f(o.elem(fl, j), 'face.n%d_id_' % i) for i in (1, 2, 3)])), 1, 'other faces')))
-    out.append(('free-face-ids-stay-slots', free_faces_wf(n, c)))
+    out += [(nm + '-afterwards', g) for (nm, g) in free_faces_wf(n, c)]
     out.append(('stored-edges-still-match-their-keys', edges_wf_after(C, o, n, c)))
     return out
 
@@ -313,8 +314,8 @@ def split_pre(C):
            ('its-nodes-and-faces-are-used-slots', z3.And(used_node(a), used_node(b), used_face(f1, g['F1']), used_face(f2, g['F2']))),
            ('both-faces-contain-the-edge', z3.And(face_has_nodes(o, g['F1'], a, b), face_has_nodes(o, g['F2'], a, b))),
            ('opposite-nodes-are-used-slots-and-differ', z3.And(used_node(cc), used_node(dd), cc != dd)),
-           ('list-sizes', z3.And(o.len(nl) < 2 ** 31, o.len(fl) < 2 ** 31)),
-           ('free-ids-are-slots', free_nodes_wf(o, g['c'])), ('free-face-ids-are-slots', free_faces_wf(o, g['c'])),
+           ('list-sizes', z3.And(o.len(nl) < 2 ** 30, o.len(fl) < 2 ** 30)),
+           ] + free_nodes_wf(o, g['c']) + free_faces_wf(o, g['c']) + [
            ('free-node-slot-is-not-one-of-the-four', z3.Implies(o.len(q) > 0, z3.And(last_free != a, last_free != b, last_free != cc, last_free != dd))),
            ('stored-edges-match-their-keys', edges_wf(o, g['c'])),
            ('the-other-four-edges-exist-and-list-their-face', z3.And(edge_can_lose(o, s, ek(a, cc), f1), edge_can_lose(o, s, ek(cc, b), f1), edge_can_lose(o, s, ek(a, dd), f2), edge_can_lose(o, s, ek(dd, b), f2),
@@ -367,6 +368,9 @@ def note_new_face(C, st):
     k = st.ghost.get('nf_count', 0)
     st.ghost['nf_count'] = k + 1
     st.ghost['new_face_%d' % k] = r
+    # the winding handed to add_face (what split_edge / swap_edge ask for)
+    f = C.arg('f').ref
+    for j in (1, 2, 3): st.ghost['new_face_%d_n%d' % (k, j)] = C.old.f(f, 'face.n%d_id_' % j)
     return r
 
 
@@ -376,6 +380,150 @@ def split_callees(prop):
     return [an, af, delete_face_contract(prop, assumed=True), get_edge_contract(prop, assumed=True)]
 
 
-def split_edge_contract(prop):
-    return Contract('local_mesh_refiner::split_edge', prop, pre=split_pre, post=split_post, use=split_callees(prop),
-                    safety={'bounds', 'optional', 'dangling-ref', 'null-deref'}, name='local_mesh_refiner::split_edge')
+def add_face_view(prop):
+    """cell::add_face as the physics / memory contract of split_edge sees it: what it writes and that it returns a slot; its
+    precondition is discharged at the same call sites by the topology contract (thorough tier)"""
+    def post(C):
+        o, n = C.old, C.new
+        fl = faces(o, C.this)
+        q = ffq(o, C.this)
+        return [('returns-a-slot-of-the-list', z3.And(C.ret >= 0, C.ret < n.len(fl))), ('face-list-does-not-shrink', n.len(fl) >= o.len(fl)),
+                ('other-vectors-untouched', QForall(lambda r: z3.Implies(z3.And(r != fl, r != q), z3.And(n.f(r, 'vec.len') == o.f(r, 'vec.len'), n.f(r, 'vec.epoch') == o.f(r, 'vec.epoch'))), 1, 'other vectors'))]
+    return Contract('cell::add_face', prop, assumed=True, throws=['mesh_integrity_exception'], post=post, ret_model=note_new_face,
+                    frame=lambda C: [(k, None) for k in ADD_FACE_ASSIGNS], name='cell::add_face (view: frame and result range; requires discharged by the topology contract)')
+
+
+def split_light_callees(prop):
+    an = add_node_contract(prop, assumed=True); an.ret_model = note_new_node
+    return [an, add_face_view(prop), delete_face_view(prop), get_edge_contract(prop, assumed=True)]
+
+
+def split_light_pre(C):
+    keep = ('cell-non-null', 'the-edge-is-a-stored-manifold-edge', 'its-nodes-and-faces-are-used-slots', 'both-faces-contain-the-edge', 'opposite-nodes-are-used-slots-and-differ',
+            'list-sizes', 'free-node-ids-are-slots', 'free-node-ids-are-unused-slots', 'free-node-ids-differ', 'the-set-of-edges-to-check-is-another-object')
+    return [(nm, g) for (nm, g) in split_pre(C) if nm in keep]
+
+
+def split_winding_post(C):
+    """the four triangles split_edge asks for are wound like the triangle they replace: their area vector (with the new node at the
+    midpoint) points to the side of the cached normal of the replaced face"""
+    if C.outcome != 'ret': return []
+    o = C.old
+    g = split_cfg(C)
+    gh = C.post_state.ghost
+    if gh.get('nf_count', 0) != 4: return [('four-faces-are-requested', z3.BoolVal(False))]
+    nl = g['nl']
+    P = lambda k: o.v3(o.elem(nl, k), 'node.pos_')
+    E = (P(g['a']) + P(g['b'])) * 0.5
+    eid = gh['new_node_id']
+    pos = lambda k: V3(*[z3.If(k == eid, E.comps()[i], P(k).comps()[i]) for i in range(3)])
+    out = []
+    a, b = g['a'], g['b']
+    # creation order in the source: f3 = (third, a, e) | (third, e, a); f5 = (third, e, b) | (third, b, e); then f4, f6 for the second face
+    want = {0: ((a, eid), (eid, a)), 1: ((eid, b), (b, eid)), 2: ((a, eid), (eid, a)), 3: ((eid, b), (b, eid))}
+    for k, (F, third) in enumerate(((g['F1'], g['cc']), (g['F1'], g['cc']), (g['F2'], g['dd']), (g['F2'], g['dd']))):
+        n1, n2, n3 = [gh['new_face_%d_n%d' % (k, j)] for j in (1, 2, 3)]
+        nrm = o.v3(F, 'face.normal_')
+        same_side = (P(a) - P(third)).cross(P(b) - P(third)).dot(nrm) >= 0
+        (x1, y1), (x2, y2) = want[k]
+        out.append(('requested-face-%d-is-wound-like-the-face-it-replaces' % (k + 3),
+                    z3.And(n1 == third, z3.If(same_side, z3.And(n2 == x1, n3 == y1), z3.And(n2 == x2, n3 == y2)))))
+    return out
+
+
+def split_lemmas(reg, prop):
+    # (third, a, e) with e the midpoint of ab has half the area vector of (third, a, b); likewise (third, e, b): so the requested
+    # windings of split_post have their area vector on the side of the cached normal of the replaced face
+    A, Bv, Cv, N = V3.fresh('wa'), V3.fresh('wb'), V3.fresh('wc'), V3.fresh('wn')
+    E = (A + Bv) * 0.5
+    cr = (A - Cv).cross(Bv - Cv)
+    ins = A.comps() + Bv.comps() + Cv.comps() + N.comps()
+    reg.lemma('half-triangles-keep-the-area-vector-direction', prop, [], z3.And(((A - Cv).cross(E - Cv) * 2).eq(cr), ((E - Cv).cross(Bv - Cv) * 2).eq(cr)),
+              note='with cr.n >= 0 the triangles (c,a,e),(c,e,b) have area vectors with non-negative component along the cached normal n; with cr.n < 0 the reversed triangles (c,e,a),(c,b,e) do', inputs=ins)
+
+
+def split_light_post(C):
+    return [it for it in split_post(C) if it[0].startswith(('cover:', 'new-node-sits', 'momentum-', 'no-surviving', 'failure-is', 'a-node-was'))] + split_winding_post(C)
+
+
+def split_edge_contract(prop, full=False):
+    if full:
+        c = Contract('local_mesh_refiner::split_edge', prop, pre=split_pre, post=split_post, use=split_callees(prop),
+                     safety={'bounds', 'optional', 'dangling-ref', 'null-deref'}, name='local_mesh_refiner::split_edge(topology)')
+        c.tier = 'thorough'
+        return c
+    return Contract('local_mesh_refiner::split_edge', prop, pre=split_light_pre, post=split_light_post, use=split_light_callees(prop),
+                    safety={'bounds', 'dangling-ref', 'null-deref'}, name='local_mesh_refiner::split_edge(physics and references)')
+
+
+# ---- local_mesh_refiner::merge_edge (physical part) ----------------------------------------------------------------------------------------------
+def two_edge_lists(C, st):
+    import ty
+    a = ObjLV(C.e.new_object(), ty.parse('std::vector<edge>')); b = ObjLV(C.e.new_object(), ty.parse('std::vector<edge>'))
+    for v in (a, b):
+        ln = C.e.fresh('edge_list_len', I); st.pc.append(ln >= 0); C.e.hwrite(st, 'vec.len', v.ref, ln)
+    return Rec('pair', {'first': a, 'second': b})
+
+
+def replace_node_view(prop):
+    """cell::replace_node as merge_edge sees it: the topology it rewires is not under contract; of the node data it resets the
+    replaced node (delete_node) and touches no other node, and it does not resize the node list"""
+    def post(C):
+        o, n = C.old, C.new
+        nl = nodes(o, C.this)
+        old = C.val('old_node_id')
+        return [('node-list-keeps-its-size', z3.And(n.len(nl) == o.len(nl), n.f(nl, 'vec.epoch') == o.f(nl, 'vec.epoch'))),
+                ('replaced-node-is-deleted', z3.Not(n.f(n.elem(nl, old), 'node.is_used_'))),
+                ('other-nodes-untouched', QForall(lambda k: z3.Implies(z3.And(k >= 0, k < o.len(nl), k != old), same_node(n, o, o.elem(nl, k))), 1, 'other nodes'))]
+    return Contract('cell::replace_node', prop, assumed=True, frame=lambda C: [('*', [])], post=post, ret_model=two_edge_lists,
+                    name='cell::replace_node (view: resets the replaced node only; topology not under contract)')
+
+
+def delete_face_view(prop):
+    def post(C):
+        o, n = C.old, C.new
+        q = ffq(o, C.this)
+        return [('other-vectors-untouched', QForall(lambda r: z3.Implies(r != q, z3.And(n.f(r, 'vec.len') == o.f(r, 'vec.len'), n.f(r, 'vec.epoch') == o.f(r, 'vec.epoch'))), 1, 'other vectors'))]
+    return Contract('cell::delete_face', prop, assumed=True, signature='(const unsigned int)', throws=['mesh_integrity_exception'], post=post,
+                    frame=lambda C: [(k, None) for k in DELETE_FACE_ASSIGNS], name='cell::delete_face(id) (view: writes what its own contract lists - no node data)')
+
+
+def merge_callees(prop):
+    an = add_node_contract(prop, assumed=True); an.ret_model = note_new_node
+    return [an, replace_node_view(prop), get_edge_contract(prop, assumed=True), delete_face_view(prop)]
+
+
+def merge_pre(C):
+    o = C.old
+    c = C.arg('c').ref; e = C.val('e_ab')
+    nl = nodes(o, c)
+    a, b = e.f['n1_id_'], e.f['n2_id_']
+    q = fnq(o, c)
+    return [('cell-non-null', z3.And(c > 0, C.e.root_of(c) > 0)),
+            ('edge-nodes-are-used-slots', z3.And(a >= 0, a < o.len(nl), b >= 0, b < o.len(nl), a != b, e.f['f1_id_'].f['has'], e.f['f2_id_'].f['has'])),
+            ('list-size', z3.And(o.len(nl) >= 0, o.len(nl) < 2 ** 31)),
+            ('free-node-slot-is-not-an-end-of-the-edge', z3.Implies(o.len(q) > 0, z3.And(o.at(q, o.len(q) - 1, 'int') != a, o.at(q, o.len(q) - 1, 'int') != b))),
+            ('the-set-of-edges-to-check-is-another-object', C.e.root_of(C.arg('edge_to_check_set').ref) != C.e.root_of(c))] + free_nodes_wf(o, c)
+
+
+def merge_post(C):
+    o, n = C.old, C.new
+    if C.outcome != 'ret':
+        return [('failure-is-reported-by-an-exception-of-the-library', z3.BoolVal(C.outcome.startswith('throw:')))]
+    c = C.arg('c').ref; e = C.val('e_ab')
+    nl = nodes(o, c)
+    a, b = e.f['n1_id_'], e.f['n2_id_']
+    iid = C.post_state.ghost.get('new_node_id')
+    if iid is None: return [('a-node-was-added', z3.BoolVal(False))]
+    A, Bn, In = o.elem(nl, a), o.elem(nl, b), n.elem(nl, iid)
+    mom = lambda v, r: v.v3(r, 'node.momentum_')
+    return [('merged-node-sits-at-the-midpoint', n.v3(In, 'node.pos_').eq((o.v3(A, 'node.pos_') + o.v3(Bn, 'node.pos_')) * 0.5)),
+            ('merged-node-carries-the-momentum-of-both-ends', mom(n, In).eq(mom(o, A) + mom(o, Bn))),
+            ('both-ends-are-deleted', z3.And(z3.Not(n.f(A, 'node.is_used_')), z3.Not(n.f(Bn, 'node.is_used_')))),
+            ('no-other-node-moves-or-changes-momentum', QForall(lambda k: z3.Implies(z3.And(k >= 0, k < o.len(nl), k != iid, k != a, k != b),
+                                                                                   z3.And(n.v3(o.elem(nl, k), 'node.pos_').eq(o.v3(o.elem(nl, k), 'node.pos_')), mom(n, o.elem(nl, k)).eq(mom(o, o.elem(nl, k))))), 1, 'others'))]
+
+
+def merge_edge_contract(prop):
+    return Contract('local_mesh_refiner::merge_edge', prop, pre=merge_pre, post=merge_post, use=merge_callees(prop), safety={'bounds', 'dangling-ref', 'null-deref'},
+                    name='local_mesh_refiner::merge_edge(physics)')
